@@ -147,10 +147,11 @@ def _one(i):
   # an existing single blank between two tokens *replaced* by a newline / a tab (every such blank)
   blanks = [b for b in bs if text[b - 1] == ' ' and (b < 2 or text[b - 2] not in ' \n') and b < len(text)
             and text[b] not in ' \n']
-  if tier != 'thorough' and len(blanks) > 16:
-    # quick tier: the blanks in front of an `Op=` token always, a seeded sample of the others
+  cap_ = 12 if tier != 'thorough' else 60
+  if len(blanks) > cap_ + 4:
+    # the blanks in front of an `Op=` token always, a seeded sample of the others (12 quick, 60 thorough)
     keep = [b for b in blanks if re.match(r'[\w+]+=(?!=)', text[b:])]
-    blanks = sorted(set(keep + rnd.sample(blanks, 12)))
+    blanks = sorted(set(keep + rnd.sample(blanks, cap_)))
   for b in blanks:
     variants += [text[:b - 1] + '\n' + text[b:], text[:b - 1] + '\t' + text[b:]]
   # redundant parentheses, nested, with layout between the levels, around integer literals and rule bodies
